@@ -12,7 +12,7 @@ N = int(os.environ.get('VERIF_STRLEN', '3'))
 _parser = MindsDBParser()
 from mindsdb_sql.parser.dialects.mindsdb.lexer import MindsDBLexer
 _RAW = list(MindsDBLexer().tokenize('select 1 from t'))
-KEYWORDS = ['type', 'model', 'database', 'agent', 'storage', 'engine', 'skills', 'name']
+KEYWORDS = ['type', 'model', 'database', 'agent', 'storage', 'engine', 'skills', 'name', 'zz', 'TYPE']
 
 
 def option_productions():
